@@ -290,10 +290,19 @@ class ConeBandS(_Solid):
 
 class _Planar(Prim):
     def margin_on(self, P, ckey):
+        """in the shape's own plane: the 2-D margin; on any other carrier only the points that
+        lie in that plane (a polyline drawn in it) can belong to the shape."""
         P = np.asarray(P, float)
-        if ckey != self.carrier.key:
+        if ckey == self.carrier.key:
+            return self.sdf2(P[:, :2])
+        if ckey[0] == "plane":
             return np.full(len(P), INF)
-        return self.sdf2(P[:, :2])
+        z0 = self.carrier.z
+        inplane = np.abs(P[:, 2] - z0) <= 1e-9 * (1 + abs(z0))
+        out = np.full(len(P), INF)
+        if inplane.any():
+            out[inplane] = self.sdf2(P[inplane, :2])
+        return out
 
 
 class PolygonS(_Planar):
